@@ -288,6 +288,40 @@ fn run_call_history(cx: &mut CaseCx, case: &Value) {
   } else {
     cx.count("craft_miss", 1);
   }
+  // two DISTINCT shares of one measurement that carry the SAME value: a polynomial of degree >= 2 takes a value
+  // at several points. From t = 3 honest shares the quadratic is interpolated (model), the twin point of share 0
+  // is x' = -c1/c2 - x0, and a share is created there by scripting the client's entropy.
+  if t == 3 {
+    use crate::refmodel as rm;
+    let pts3: Vec<(BigUint, BigUint)> = a.iter().take(3).filter_map(|c| BASE64_STANDARD.decode(&c.share_b64).ok().and_then(|b| rm::parse_adss(&b)).and_then(|p| p.s.y.first().map(|y| (p.s.x.clone(), y.clone())))).collect();
+    if pts3.len() == 3 {
+      let co = rm::interpolate_coeffs(&pts3);
+      if let Some(inv) = rm::invm(&co[2]) {
+        let twin_x = rm::subm(&rm::negm(&rm::mulm(&co[1], &inv)), &pts3[0].0);
+        if twin_x != BigUint::from(0u32) && pts3.iter().all(|p| p.0 != twin_x) {
+          let tw = mk(cx, b"measurement A", 1, &[&twin_x.to_string()]);
+          let same_value = tw.first().and_then(|c| BASE64_STANDARD.decode(&c.share_b64).ok()).and_then(|b| rm::parse_adss(&b)).map(|p| p.s.x == twin_x && p.s.y.first() == Some(&pts3[0].1)).unwrap_or(false);
+          if same_value {
+            let want = BASE64_STANDARD.encode(&a[0].key);
+            for order in [[0usize, 3, 1], [3, 0, 2], [1, 2, 3], [3, 1, 0]] {
+              let pool: Vec<&Created> = vec![&a[0], &a[1], &a[2], &tw[0]];
+              let sel: Vec<&Created> = order.iter().map(|&i| pool[i]).collect();
+              cx.eval();
+              match guard(|| star_wasm::group_shares(&join(&sel), "e")) {
+                Ok(Some(k)) if k == want => cx.count("equal_value_twins_grouped", 1),
+                other => {
+                  cx.viol("C17/group_shares-wrong-key/equal-values", format!("three distinct valid shares of one measurement (t = 3), two of which carry the same VALUE at different evaluation points, grouped to {:?} instead of the clients' key", other.map(|o| o.is_some())), json!({"t": t, "order": order}));
+                  break;
+                }
+              }
+            }
+          } else {
+            cx.count("craft_miss", 1);
+          }
+        }
+      }
+    }
+  }
   cx.outcome("call history");
 }
 
@@ -667,10 +701,10 @@ pub fn spec() -> PropSpec {
     },
     Check {
       name: "call-history",
-      rule: "t in 1..4: a call holding k valid shares followed by a malformed line (4 kinds, incl. a trailing newline) is rejected; the NEXT call with t-1 shares must yield nothing and a complete grouping of another measurement must yield that measurement's key (nothing survives a rejected call); t shares created at scripted evaluation points 2^128+5, p-1, 2^128, 5 group to the clients' key",
+      rule: "t in 1..4: a call holding k valid shares followed by a malformed line (4 kinds, incl. a trailing newline) is rejected; the NEXT call with t-1 shares must yield nothing and a complete grouping of another measurement must yield that measurement's key (nothing survives a rejected call); t shares created at scripted evaluation points 2^128+5, p-1, 2^128, 5 group to the clients' key; for t = 3 a share created at the TWIN point of share 0 (same value, other point: x' = -c1/c2 - x0 of the interpolated quadratic) groups with the others in four orders",
       gen: |_| (1..=4u64).map(|t| json!({"t": t})).collect(),
       run: run_call_history,
-      min_counts: &[("history_ok", 20), ("crafted_points_grouped", 3)],
+      min_counts: &[("history_ok", 20), ("crafted_points_grouped", 3), ("equal_value_twins_grouped", 4)],
     },
     Check {
       name: "large-thresholds",
